@@ -15,7 +15,7 @@ import (
 )
 
 func init() {
-	Explanations["C20"] = "Decides structural necessary conditions of 'seed phrases and derived keys round-trip exactly' in wallet/seed.go: (R1) the word-list literal has exactly 2^W distinct, whitespace-free, lower-case entries, the decoder's map is built once from that same variable as word → position, and neither is assigned anywhere else; (R2) nothing reachable (through repository functions and one level into dependencies) from SeedFromPhrase, KeyFromSeed and the decoder reads time, randomness, the environment or a mutable global; (R3) the phrase parameter is consumed only by strings.Fields; (R4) the decoder's three rejections guard every success return: word count against the constant 12, membership of every word of the full list in the map, and the checksum comparison; (R5) the bit-packing constants of encoder and decoder are mutually consistent for one (W, E, C) = (word bits, entropy bits in the last word, checksum bits): masks 2^W−1, 2^E−1, 2^C−1, shifts W, 64−W, E, 64−E, C, E + C = W, words·W − C = 128. NOT decided: the round trip itself (an exact decision needs bit-level symbolic evaluation, which is another family), correctness of sha256/blake2b/ed25519."
+	Explanations["C20"] = "Decides structural necessary conditions of 'seed phrases and derived keys round-trip exactly' in wallet/seed.go: (R1) the word-list literal has exactly 2^W distinct, whitespace-free, lower-case entries, the decoder's map is built once from that same variable as word → position, and neither is assigned anywhere else; (R2) nothing reachable (through repository functions and one level into dependencies) from SeedFromPhrase, KeyFromSeed and the decoder reads time, randomness, the environment or a mutable global; (R3) the phrase parameter is consumed only by strings.Fields; (R4) the decoder's three rejections guard every success return: word count against the constant 12, membership of every word of the full list in the map, and the checksum comparison; (R5) the bit-packing constants of encoder and decoder are mutually consistent for one (W, E, C) = (word bits, entropy bits in the last word, checksum bits): masks 2^W−1, 2^E−1, 2^C−1, shifts W, 64−W, E, 64−E, C, E + C = W, words·W − C = 128. (R6) the arithmetic applied to the first byte of the SHA-256 digest in the checksum function is folded for all 256 byte values and must equal the leading C bits. NOT decided: the round trip itself (an exact decision needs bit-level symbolic evaluation, which is another family), correctness of sha256/blake2b/ed25519."
 
 	register(&Rule{ID: "C20.R1", Prop: "C20", Floor: 3, Doc: "word table: 2048 distinct clean words; decoder map built from the same variable; never reassigned", Run: c20r1})
 	register(&Rule{ID: "C20.R2", Prop: "C20", Floor: 3, Doc: "determinism: derivation reads no time, randomness, environment or mutable global", Run: c20r2})
